@@ -60,6 +60,13 @@ func (g *Gen) confLine() string {
 		if g.r.Intn(2) == 0 {
 			parts = append(parts, "rlimit="+strconv.Itoa(300+g.r.Intn(900)))
 		}
+	case "gc":
+		for _, k := range []string{"untagged", "dangling", "withsubj", "emptyrepo"} {
+			parts = append(parts, k+"="+strconv.Itoa(g.r.Intn(2)))
+		}
+		if g.r.Intn(2) == 0 {
+			parts = append(parts, "grace=3600")
+		}
 	case "raw":
 		for _, k := range []string{"push", "del", "bdel", "ref"} {
 			if g.r.Intn(4) == 0 {
@@ -501,6 +508,32 @@ func (g *Gen) run(n int) {
 			k := 10 + g.r.Intn(30)
 			for i := 0; i < k; i++ {
 				g.isolationStep(offs, recv)
+			}
+		case "gc":
+			// object graphs through the API, ages set by hook, a collection at any point
+			k := 10 + g.r.Intn(30)
+			for i := 0; i < k; i++ {
+				switch g.r.Intn(14) {
+				case 0, 1:
+					g.emit("GC " + g.pick([]string{"r1", "r1", "r1", "r2"}))
+				case 2, 3: // age something
+					repo := "r1"
+					var tok string
+					if len(g.manIn[repo]) > 0 && g.r.Intn(2) == 0 {
+						tok = "sha256:" + g.pick(g.manIn[repo])
+					} else if len(g.blobsIn[repo]) > 0 {
+						tok = "sha256:" + g.pick(g.blobsIn[repo])
+					} else {
+						tok = "sha256:c1"
+					}
+					g.emit("SETTIME " + repo + " " + tok + " " + g.pick([]string{"old", "old", "recent"}))
+				case 4, 5, 6:
+					g.refsStep()
+				case 7:
+					g.tagsStep()
+				default:
+					g.step()
+				}
 			}
 		case "rofs":
 			// build content on a writable directory store, then serve it read-only or through a memory overlay
